@@ -6,6 +6,8 @@ Inductive c01case :=
 | CMut (defs : list (uid * list event)) (me : key) (ms : list ment)
 | CDel (defs : list (uid * list event)) (me : key) (now : Z) (ns : list dnode) (es : list dedge)
        (upd : list dnode)     (* source rows a reference deletion re-dates and re-signs (DeletionQuery.updated_nodes) *)
+| CRoomMut (defs : list (uid * list event)) (me : key) (rid : uid) (date : Z) (news : list event)
+       (* a mutation of an existing room's definition: the entries `news`, all dated `date` *)
 | CE2E (inner : c01case).    (* the same operation submitted as text through the public API of a real instance:
                                 observation = [refused?; database changed?] *)
 
@@ -18,6 +20,33 @@ Definition evs_of (defs : list (uid * list event)) (rid : uid) : list event :=
   end.
 Definition known_room (defs : list (uid * list event)) (rid : uid) : bool :=
   existsb (fun p => N.eqb (fst p) rid) defs.
+
+(* validate_room_mutation for an EXISTING room: the caller must be admin of the room as it is;
+   the entries are added with the add_* functions (any refusal refuses the request); then, if an
+   admin / right / user-admin entry was added, or a user entry in a group whose user-admin the
+   caller is not, the caller must (still) be admin of the room as it becomes *)
+Fixpoint apply_news (r : room) (news : list event) : option room :=
+  match news with
+  | [] => Some r
+  | ev :: tl => match apply_event r ev with Some r' => apply_news r' tl | None => None end
+  end.
+Definition needs_room_admin (r' : room) (me : key) (date : Z) (ev : event) : bool :=
+  match ev with
+  | EvGroup _ => false
+  | EvAdmin _ _ _ | EvRight _ _ _ _ _ | EvUAdmin _ _ _ _ => true
+  | EvUser g _ _ _ => match find_auth r' g with
+                      | Some a => negb (can_admin_users a me date)
+                      | None => true
+                      end
+  end.
+Definition validate_room_update (me : key) (r : room) (date : Z) (news : list event) : verdict :=
+  if negb (is_admin r me date) then VRejected
+  else match apply_news r news with
+       | None => VInvalidAuthMutation             (* some add_* refused (date older than the key's last entry, duplicate group) *)
+       | Some r' =>
+           if existsb (needs_room_admin r' me date) news && negb (is_admin r' me date) then VRejected
+           else VOk
+       end.
 
 Definition probe_model (r : room) (p : key * entity * Z) : list Z :=
   let '(k, e, d) := p in
@@ -37,6 +66,11 @@ Fixpoint run_C01 (c : c01case) : list Z :=
       map zb oks ++ flat_map (probe_model r) probes
   | CMut defs me ms => [verdict_code (validate_all me (build_rooms defs) ms)]
   | CDel defs me now ns es upd => [verdict_code (validate_deletion me now (build_rooms defs) ns es upd)]
+  | CRoomMut defs me rid date news =>
+      match find (fun p => N.eqb (fst p) rid) defs with
+      | None => [verdict_code VUnknownRoom]
+      | Some p => [verdict_code (validate_room_update me (build (fst p) (snd p)) date news)]
+      end
   | CE2E inner =>
       match run_C01 inner with
       | [v] => if Z.eqb v 0 then [0; 1] else [1; 0]      (* accepted: applied; refused: nothing changes *)
@@ -104,6 +138,12 @@ Fixpoint spec_C01 (c : c01case) (obs : list Z) : bool :=
                  forallb (fun n => del_entitled defs me now (de_kind n) (de_ent n) (de_room n) (de_author n) (de_date n)) es &&
                  forallb (upd_entitled defs me now) upd
                else true
+      | _ => false
+      end
+  | CRoomMut defs me rid date news =>
+      (* a room's definition is changed only by its admins *)
+      match obs with
+      | [v] => if Z.eqb v 0 then known_room defs rid && admin_at (evs_of defs rid) me date else true
       | _ => false
       end
   | CE2E inner =>
